@@ -238,7 +238,7 @@ func diffHint(got, want string) string {
 		if lo > len(s) {
 			return ""
 		}
-		return s[lo:hi]
+		return strings.ToValidUTF8(s[lo:hi], "")
 	}
 	return "first difference at offset " + sprintf("%d", i) + ": got …" + cut(got) + "… expected …" + cut(want) + "…"
 }
